@@ -26,6 +26,9 @@ class Mode:
     def fconst(self, v):
         if self.fp:
             return z3.FPVal(v, z3.Float64())
+        if v == float("-inf") and getattr(self, "neg_inf_sentinel", False):
+            # -inf as a distinguished real constant: contracts using it state that every other value is greater
+            return z3.Real("NINF")
         if v == float("inf") or v == float("-inf") or v != v:
             raise Unsupported(f"non-finite literal {v} in real mode")
         if isinstance(v, float):
